@@ -26,8 +26,19 @@ echo "== demo with patch" >> $LOG
 ( cd $DEMODIR && go test -vet=off -count=1 ${TAGS:+-tags $TAGS} -run "^${TESTNAME}\$" . ) >> $LOG 2>&1; P1=$?
 mv $DEMODIR/$DEMON /tmp/seeded-out/$ID/$L/.demo.tmp
 E=0
-for p in $PKGS; do echo "== existing tests ./$p" >> $LOG; ( cd $p && timeout 3000 go test -vet=off -count=1 -timeout 45m . ) >> $LOG 2>&1 || E=1; done
+for p in $PKGS; do echo "== existing tests ./$p" >> $LOG; ( cd $p && timeout 3000 go test -vet=off -count=1 ${TAGS:+-tags $TAGS} -timeout 45m . ) >> $LOG 2>&1 || E=1; done
 mv /tmp/seeded-out/$ID/$L/.demo.tmp $DEMODIR/$DEMON
 for f in $(find . -name 'zz_seeded_*_test.go.hidden' -not -path './.git/*'); do mv $f ${f%.hidden}; done
 git checkout -q -- .
-echo "$ID/$L: demo_pristine_rc=$P0 build_rc=$B demo_patched_rc=$P1 existing_tests_fail=$E pkgs=[$PKGS] demo=$DEMODIR/$DEMON test=$TESTNAME" | tee -a $LOG
+NEWFAIL=$(python3 - "$LOG" <<'PY'
+import json,re,sys
+b=json.load(open('/root/.vp/BASELINE.json'))
+af=set(x.split('::')[1] for x in b['always_fail'])
+log=open(sys.argv[1]).read()
+part=log.split('== existing tests',1)[1] if '== existing tests' in log else ''
+fails=set(re.findall(r'^\s*--- FAIL: (\S+)',part,re.M))
+print(','.join(sorted(x for x in fails if x not in af)) or '-')
+PY
+)
+echo "$ID/$L: new_failures_vs_baseline=$NEWFAIL" >> $LOG
+echo "$ID/$L: demo_pristine_rc=$P0 build_rc=$B demo_patched_rc=$P1 existing_tests_fail=$E new_failures_vs_baseline=$NEWFAIL pkgs=[$PKGS] demo=$DEMODIR/$DEMON test=$TESTNAME" | tee -a $LOG
